@@ -23,7 +23,7 @@ import (
 
 func TestMain(m *testing.M) { kit.Main(m) }
 
-const rule = "round trip: a typed Go value (ints of all widths incl. extremes, uints, floats, bools, strings that are plain / number-like / bool-like / quoted / bracketed / unicode / with spaces, slices, maps, nested structs with yaml tags, pointers) is marshalled to YAML under a key and bound through four twin fields of that type - prefix:\"k\", value:\"${k}\", prop:\"k\" and, for scalars, a literal value tag; oracle: the prefix twin equals the value, the value / prop twins equal the prefix twin, the literal twin equals the literal; non-trivial = the value contains a string that is not plain or a number outside +-2^31 or a composite; distinct by type + value"
+const rule = "round trip: a typed Go value (ints of all widths incl. extremes, uints, floats, bools, strings that are plain / number-like / bool-like / quoted / bracketed / unicode / with spaces, slices, maps, nested structs with yaml tags, pointers) is marshalled to YAML under a key and bound through four twin fields of that type - prefix:\"k\", value:\"${k}\", prop:\"k\" and, for scalars, a literal value tag; oracle: the prefix twin equals the value, the value / prop twins equal the prefix twin, the literal twin equals the literal; non-trivial = the value contains a string that is not plain or a number outside +-2^31 or a composite; distinct by type + value; since rounds 7/8 also a reference binder that is never read in between (Set under re-spelled keys, a struct bound to the whole section), a Configure initialised before the App gets it, a Prefix() that depends on the instance, and a priority-ordered post-processor that declines every component"
 
 type Inner struct {
 	A int      `yaml:"a"`
